@@ -172,6 +172,42 @@ def generic_argname_rule(prop, project, result):
                     r.ok()
 
 
+CACHE_DECORATORS = {"lru_cache", "cache", "cached", "memoize", "memoized", "cached_property"}
+
+
+def generic_memo_rule(prop, project, result):
+    """Cxx.G3: no function of the property's scope is wrapped in a result cache unless what it returns is plainly immutable.
+    menpo's functions hand out arrays, transforms, images: a cached one hands every caller the *same* mutable object, and a
+    cache keyed on arguments ignores everything else the answer depends on (working directory, object state)."""
+    import ast as _ast
+    table = _scope().get(prop)
+    if not table:
+        return
+    r = result.rule("%s.G3" % prop, "no result cache on functions that return mutable objects or read state (a memoised factory hands every caller the same object)")
+    index = {f.qualname: f for f in project.all_functions()}
+    for q in table:
+        f = index.get(q)
+        if f is None:
+            continue
+        r.instance(f)
+        decs = [d.split(".")[-1].split("(")[0] for d in f.decorators()]
+        bad = [d for d in decs if d in CACHE_DECORATORS]
+        if not bad:
+            r.ok()
+            continue
+        immut = True
+        for n in _ast.walk(f.node):
+            if isinstance(n, _ast.Return) and n.value is not None:
+                v = n.value
+                if not all(isinstance(x, (_ast.Constant, _ast.Tuple, _ast.BinOp, _ast.UnaryOp, _ast.Compare, _ast.BoolOp, _ast.operator, _ast.unaryop, _ast.cmpop, _ast.boolop, _ast.expr_context, _ast.Name, _ast.Load))
+                           for x in _ast.walk(v)):
+                    immut = False
+        if f.cls is not None and "staticmethod" not in decs:
+            immut = False
+        r.check(immut, f, f.node, "%s is memoised (@%s) although it %s: every call with equal arguments is answered with the same object, so a caller that modifies the result "
+                "in place (or a change of the state the answer depends on) corrupts all later answers" % (f.short, bad[0], "is a method reading object state" if f.cls is not None else "builds and returns an object"))
+
+
 def run_rules(mod, project, tier="quick", result=None, generic=True):
     result = result or Result(mod.PROP, tier)
     rules = list(mod.RULES)
@@ -191,6 +227,7 @@ def run_rules(mod, project, tier="quick", result=None, generic=True):
         try:
             generic_param_rule(mod.PROP, project, result)
             generic_argname_rule(mod.PROP, project, result)
+            generic_memo_rule(mod.PROP, project, result)
         except Exception as e:
             result.error("generic rules: internal error %s: %s" % (type(e).__name__, e))
     anchor_filter(mod.PROP, result)
